@@ -583,6 +583,190 @@ example : settled ([.setEq 1 (.lookup 0 (.lit 3)), .eval 1 0 20, .setPoints 0 (f
   decide
 
 
+
+/-! ## (wave 5) the dependency structure behind cache invalidation -/
+
+/-- `m` (transitively) uses `n` under the definitions `body`. -/
+inductive Reach {α : Type} (body : Nat → Expr α) : Nat → Nat → Prop where
+  | direct (m n : Nat) : mentions (body m) n = true → Reach body m n
+  | step (m j n : Nat) : mentions (body m) j = true → Reach body j n → Reach body m n
+
+/-- a derivation that never touches `n` survives the change of `n`'s definition. -/
+theorem val_irrelevant {α : Type} (ops : Ops α) (body : Nat → Expr α) (n : Nat) (e' : Expr α)
+    {e : Expr α} {k : Nat} {v : α} (h : Val ops body e k v) :
+    (∀ j, mentions e j = true → j ≠ n ∧ ¬ Reach body j n) → Val ops (updFn body n e') e k v := by
+  induction h with
+  | lit x k => intro _; exact Val.lit x k
+  | ref j k v _ ih =>
+      intro hm
+      obtain ⟨hj, hr⟩ := hm j (by simp [mentions])
+      have hb : updFn body n e' j = body j := by simp [updFn, hj]
+      refine Val.ref j k v ?_
+      rw [hb]
+      exact ih (fun i hi => ⟨fun hin => hr (hin ▸ Reach.direct j i hi), fun hin => hr (Reach.step j i n hi hin)⟩)
+  | prev j k v _ ih =>
+      intro hm
+      obtain ⟨hj, hr⟩ := hm j (by simp [mentions])
+      have hb : updFn body n e' j = body j := by simp [updFn, hj]
+      refine Val.prev j k v ?_
+      rw [hb]
+      exact ih (fun i hi => ⟨fun hin => hr (hin ▸ Reach.direct j i hi), fun hin => hr (Reach.step j i n hi hin)⟩)
+  | bin op a b k x y _ _ iha ihb =>
+      intro hm
+      exact Val.bin op a b k x y (iha (fun j hj => hm j (by simp [mentions, hj])))
+        (ihb (fun j hj => hm j (by simp [mentions, hj])))
+  | max0 a k x _ ih => intro hm; exact Val.max0 a k x (ih (fun j hj => hm j (by simpa [mentions] using hj)))
+  | atStart0 a b v _ ih =>
+      intro hm; exact Val.atStart0 a b v (ih (fun j hj => hm j (by simp [mentions, hj])))
+  | atStartS a b k v _ ih =>
+      intro hm; exact Val.atStartS a b k v (ih (fun j hj => hm j (by simp [mentions, hj])))
+  | lookup p a k x _ ih => intro hm; exact Val.lookup p a k x (ih (fun j hj => hm j (by simpa [mentions] using hj)))
+
+theorem look_clearSel {α : Type} (m : Memo α) (S : Nat → Bool) (key : Key) (v : α)
+    (h : look (clearSel m S) key = some v) : look m key = some v ∧ S key.1 = false := by
+  induction m with
+  | nil => simp [clearSel, look] at h
+  | cons e rest ih =>
+      obtain ⟨k, w⟩ := e
+      simp only [clearSel, List.filter_cons] at h ih
+      by_cases hS : S k.1 = true
+      · simp only [hS, Bool.not_true] at h
+        have := ih h
+        refine ⟨?_, this.2⟩
+        rw [look_cons]
+        split
+        · rename_i hk; rw [← hk, hS] at this; exact absurd this.2 (by simp)
+        · exact this.1
+      · have hS' : S k.1 = false := by simpa using hS
+        simp only [hS', Bool.not_false, if_true] at h
+        rw [look_cons] at h ⊢
+        split at h
+        · rename_i hk; refine ⟨by simp [hk, h], by rw [← hk]; exact hS'⟩
+        · rename_i hk; have := ih h; exact ⟨by simp [hk, this.1], this.2⟩
+
+/-- **the criterion**: a cleared set that contains the changed element and all its transitive users (under the
+definitions the memo was computed with) keeps the memo invariant across the change. -/
+theorem memoInv_clearSel {α : Type} (ops : Ops α) (body : Nat → Expr α) (m : Memo α) (n : Nat) (e' : Expr α)
+    (S : Nat → Bool) (hS : ∀ j, (j = n ∨ Reach body j n) → S j = true) (hm : MemoInv ops body m) :
+    MemoInv ops (updFn body n e') (clearSel m S) := by
+  intro key v h
+  obtain ⟨hl, hk⟩ := look_clearSel m S key v h
+  have hne : key.1 ≠ n := fun e => by rw [hS key.1 (Or.inl e)] at hk; cases hk
+  have hnr : ¬ Reach body key.1 n := fun r => by rw [hS key.1 (Or.inr r)] at hk; cases hk
+  have hv : Val ops body (body key.1) key.2 v := hm key v hl
+  have hb : updFn body n e' key.1 = body key.1 := by simp [updFn, hne]
+  show Val ops (updFn body n e') (updFn body n e' key.1) key.2 v
+  rw [hb]
+  exact val_irrelevant ops body n e' hv
+    (fun i hi => ⟨fun hin => hnr (hin ▸ Reach.direct key.1 i hi), fun hin => hnr (Reach.step key.1 i n hi hin)⟩)
+
+/-- a policy is complete when it clears the changed element and every transitive user of it. -/
+def Complete {α : Type} (sel : St α → Nat → Nat → Bool) : Prop :=
+  ∀ s n j, (j = n ∨ Reach s.body j n) → sel s n j = true
+
+theorem selAll_complete {α : Type} : Complete (selAll : St α → Nat → Nat → Bool) := fun _ _ _ _ => rfl
+
+/-- under a selective policy only a cache reset settles a points write (an edit no longer empties the memo). -/
+def settledSelFrom {α : Type} : Bool → List (Op α) → Bool
+  | d, [] => !d
+  | _, .setPoints _ _ :: r => settledSelFrom true r
+  | d, .eval _ _ _ :: r => !d && settledSelFrom d r
+  | _, .reset :: r => settledSelFrom false r
+  | d, .setEq _ _ :: r => settledSelFrom d r
+  | d, .setInit _ _ :: r => settledSelFrom d r
+  | d, .addEq _ _ :: r => settledSelFrom d r
+
+theorem inv_run_sel_from {α : Type} (sel : St α → Nat → Nat → Bool) (hc : Complete sel) (ops : Ops α)
+    (h : List (Op α)) : ∀ (d : Bool) (s : St α), (d = false → StInv ops s) → settledSelFrom d h = true →
+      StInv ops (runSel sel ops s h) := by
+  induction h with
+  | nil =>
+      intro d s hs hset
+      simp only [settledSelFrom, Bool.not_eq_true'] at hset
+      exact hs hset
+  | cons op rest ih =>
+      intro d s hs hset
+      simp only [runSel, List.foldl_cons]
+      cases op with
+      | setPoints p f =>
+          simp only [settledSelFrom] at hset
+          exact ih true _ (by intro h; cases h) hset
+      | eval n k fuel =>
+          simp only [settledSelFrom, Bool.and_eq_true, Bool.not_eq_true'] at hset
+          exact ih d _ (fun _ => (evalK_sound (ops.withLk s.lk) s.body fuel s.memo (n, k) (hs hset.1)).1) hset.2
+      | reset =>
+          simp only [settledSelFrom] at hset
+          exact ih false _ (fun _ => memoInv_nil _ _) hset
+      | setEq n e =>
+          simp only [settledSelFrom] at hset
+          exact ih d _ (fun hd => memoInv_clearSel _ s.body s.memo n _ (sel s n) (hc s n) (hs hd)) hset
+      | setInit n e =>
+          simp only [settledSelFrom] at hset
+          exact ih d _ (fun hd => memoInv_clearSel _ s.body s.memo n _ (sel s n) (hc s n) (hs hd)) hset
+      | addEq n e =>
+          simp only [settledSelFrom] at hset
+          exact ih d _ (fun hd => memoInv_clearSel _ s.body s.memo n _ (sel s n) (hc s n) (hs hd)) hset
+
+/-- **C08_fresh for every complete selective policy**: after any history (points writes settled by a reset),
+whatever `element(t_k)` returns is what the freshly built model yields — and it terminates whenever that does. -/
+theorem C08_fresh_selective {α : Type} (sel : St α → Nat → Nat → Bool) (hc : Complete sel) (ops : Ops α)
+    (s0 : St α) (h0 : s0.memo = []) (h : List (Op α)) (hset : settledSelFrom false h = true) (n k f2 : Nat) (w : α)
+    (hw : query ops { runSel sel ops s0 h with memo := [] } n k f2 = some w) :
+    (∀ f1 v, query ops (runSel sel ops s0 h) n k f1 = some v → v = w) ∧
+    ∃ f0, ∀ f1, f0 ≤ f1 → query ops (runSel sel ops s0 h) n k f1 = some w := by
+  have hinv : StInv ops (runSel sel ops s0 h) :=
+    inv_run_sel_from sel hc ops h false s0 (fun _ => by simp only [StInv, h0]; exact memoInv_nil _ _) hset
+  have hF := (evalK_sound (ops.withLk (runSel sel ops s0 h).lk) (runSel sel ops s0 h).body f2 [] (n, k)
+    (memoInv_nil _ _)).2 w hw
+  refine ⟨fun f1 v hv => Val.det ((evalK_sound _ _ f1 _ (n, k) hinv).2 v hv) hF, ?_⟩
+  obtain ⟨f0, hf0⟩ := evalK_complete _ _ (n, k) w hF
+  exact ⟨f0, fun f1 hf1 => hf0 f1 hf1 _ hinv⟩
+
+/-- clearing everything is the complete policy `selAll`, and it is what `step` does when the two cache-reset
+facts hold: the code's behaviour is the instance `C08_fresh_selective selAll`. -/
+theorem clearSel_all {α : Type} (m : Memo α) : clearSel m (fun _ => true) = [] := by
+  simp [clearSel]
+
+theorem stepSel_all_eq_step {α : Type} (c : Cfg) (hi : c.initialValueResetsCache = true)
+    (ha : c.addEquationResetsCache = true) (ops : Ops α) (s : St α) (op : Op α) :
+    stepSel selAll ops s op = step c ops s op := by
+  have hall : ∀ n, clearSel s.memo (selAll s n) = [] := fun n => clearSel_all s.memo
+  cases op <;> simp [stepSel, step, hall, hi, ha]
+
+theorem runSel_all_eq_run {α : Type} (c : Cfg) (hi : c.initialValueResetsCache = true)
+    (ha : c.addEquationResetsCache = true) (ops : Ops α) (h : List (Op α)) :
+    ∀ s : St α, runSel selAll ops s h = run c ops s h := by
+  induction h with
+  | nil => intro s; rfl
+  | cons op rest ih =>
+      intro s
+      simp only [runSel, run, List.foldl_cons] at ih ⊢
+      rw [stepSel_all_eq_step c hi ha]; exact ih _
+
+/-! ### an incomplete users relation is unsound (the `\w+` name matcher) -/
+
+/-- elements: 0 = constant `c` (plain name), 1 = constant named `mod.c` (a dot: invisible to `\w+`), 2 = converter
+`k = mod.c * 3`.  `k(t_0); mod.c.equation = 5; k(t_0)`: the matcher finds no user of `mod.c`, keeps `k`'s entry,
+and answers 6 where a fresh model yields 15; with a matcher that sees every name (or with `selAll`) it is 15. -/
+def wVisible : Nat → Bool := fun n => n != 1
+
+def wSelHist : List (Op Int) :=
+  [.setEq 1 (.lit 2), .setEq 2 (.bin 2 (.ref 1) (.lit 3)), .eval 2 0 20, .setEq 1 (.lit 5)]
+
+theorem C08_witness_selective_matcher :
+    query intOps (runSel (selMatcher wVisible) intOps wInit wSelHist) 2 0 20 = some 6 ∧
+    query intOps { runSel (selMatcher wVisible) intOps wInit wSelHist with memo := [] } 2 0 20 = some 15 ∧
+    query intOps (runSel (selMatcher (fun _ => true)) intOps wInit wSelHist) 2 0 20 = some 15 ∧
+    query intOps (runSel selAll intOps wInit wSelHist) 2 0 20 = some 15 := by decide
+
+/-- hence the matcher policy is not complete: it misses a user. -/
+theorem selMatcher_incomplete : ¬ Complete (selMatcher wVisible : St Int → Nat → Nat → Bool) := by
+  intro hc
+  have h := (C08_fresh_selective (selMatcher wVisible) hc intOps wInit rfl wSelHist (by decide) 2 0 20 15
+    C08_witness_selective_matcher.2.1).1 20 6 C08_witness_selective_matcher.1
+  exact absurd h (by decide)
+
+
 /-! ## Part (b): the worker threads of one run, every schedule -/
 
 /-- "The value reported is the value every dependent consumed": every value `memoize` ever handed out
@@ -916,6 +1100,11 @@ theorem C08_witness_race_full (c : Cfg) (h : c.memoizeFirstStoreWins = false) : 
 #print axioms val_total
 #print axioms C08_total
 #print axioms points_unsettled_stale
+#print axioms memoInv_clearSel
+#print axioms C08_fresh_selective
+#print axioms runSel_all_eq_run
+#print axioms C08_witness_selective_matcher
+#print axioms selMatcher_incomplete
 #print axioms settledFrom_false_of_noPoints
 #print axioms C08_stochastic_threads
 #print axioms C08_deterministic_threads
